@@ -10,7 +10,7 @@ probe transaction after every batch of 50 cases. Every hostile connection is hal
 a response or a close within a bounded wait; connections still open after the wait are counted (inconclusive above 5%).
 Arithmetic UBSan kinds are notes (they belong to C27/C28/C52).
 """
-import random, threading, time, socket, struct, base64
+import os, random, threading, time, socket, struct, base64
 from concurrent.futures import ThreadPoolExecutor
 from lab import base, httpref
 from lab.lab import Lab, Resp, Conn, request_bytes
@@ -388,7 +388,7 @@ def run(a, res):
         conf = (f"cache_mem 32 MB\nmaximum_object_size_in_memory 1 MB\nrequest_header_max_size 16 KB\nreply_header_max_size 16 KB\n"
                 "dns_timeout 1 seconds\nconnect_timeout 2 seconds\nclient_request_buffer_max_size 256 KB\nrange_offset_limit 1 MB\n"
                 f"pipeline_prefetch {pf}\nrelaxed_header_parser {rhp}\n")
-        lab = Lab(a, res, handler=handler, conf=conf)
+        lab = Lab(a, res, handler=handler, conf=conf, debug=os.environ.get("VERIF_SQUID_DEBUG", "ALL,1"))
         lab.crash_is_violation = True
         sq = lab.sq
         stats_lock = threading.Lock()
